@@ -339,6 +339,11 @@ fn gen_key(rng: &mut Rng, t: &LTable) -> (Ex, String) {
         return (Ex::Arith(op, Box::new(Ex::Col(c)), Box::new(Ex::Lit(Cell::Int(k)))), format!("expr{}", op));
     }
     if rng.chance(1, 50) { return (Ex::Lit(Cell::Int(rng.range(0, 9))), "const".into()); }
+    if rng.chance(1, 30) {
+        // IS [NOT] NULL as sort key (a constant expansion when the column has no NULL in the partition)
+        let c = rng.below(ncols as u64) as usize;
+        return (if rng.chance(1, 2) { Ex::IsNull(Box::new(Ex::Col(c))) } else { Ex::NotNull(Box::new(Ex::Col(c))) }, "isnull".into());
+    }
     if rng.chance(1, 25) && int_cols.len() > 1 {
         // a comparison as sort key (boolean 0/1, NULL when an operand is NULL)
         let (a, b) = (*rng.pick(&int_cols), *rng.pick(&int_cols));
